@@ -4,7 +4,7 @@
   (`Op3 = base2 (op : Op2) | xchg …`: entity operations with relations, `CopyEntity`, `Shrink`, filter
   operations, queries, AND `Exchange`).
 
-  * `step3_inv`, `run3_inv`, `reach3_inv`, `reach3_fits` — `HInv2` after every `Reset`-free history
+  * `step3_inv`, `run3_inv`, `reach3_inv`, `reach3_fits` — `HInv2` after every history (`Reset` included)
     with `ops.length < 2^16`;
   * `refines3`, `alive_iff_specified3` — every entry of the specification is realised by the world;
   * `xchg_rejected`, `xchg_accepted`, `xchg_entry`, `xchg_others`, `xchg_effect` — what an `xchg`
@@ -29,20 +29,19 @@ def Op3.isReset : Op3 → Bool
   | .base2 op => op.isReset
   | .xchg _ _ _ _ _ _ => false
 
-/-- **one step keeps the invariant** (every operation but `Reset`) -/
+/-- **one step keeps the invariant** (every operation, `Reset` included) -/
 theorem step3_inv (run : ProbeRunner) {s : St} {fl : List Nat} (H : HInv2 s fl)
     (hfew : s.w.tables.length + s.w.relationArchetypes.length + 1 ≤ maxU32)
-    (hent : 2 * s.w.entities.length < 2 ^ 32) (op : Op3) (hnr : op.isReset = false) :
+    (hent : 2 * s.w.entities.length < 2 ^ 32) (op : Op3) :
     (∃ fl', HInv2 (step3 run s op) fl') ∧ Grows s (step3 run s op) := by
   cases op with
-  | base2 op => exact step2_inv run H hfew hent op hnr
+  | base2 op => exact step2_inv run H hfew hent op
   | xchg p e add vals rem rels =>
     obtain ⟨h1, h2, _, _⟩ := step3_xchg run H (by omega) (by omega) p e add vals rem rels
     exact ⟨h1, h2⟩
 
-/-- the invariant holds after every `Reset`-free history that stays within the size bounds -/
+/-- the invariant holds after every history that stays within the size bounds -/
 theorem run3_inv (run : ProbeRunner) (ops : List Op3) : ∀ (s : St) (fl : List Nat), HInv2 s fl →
-    (∀ op ∈ ops, op.isReset = false) →
     s.w.tables.length + ops.length * (s.w.relationArchetypes.length + ops.length) +
       s.w.relationArchetypes.length + ops.length + 1 ≤ maxU32 →
     2 * (s.w.entities.length + ops.length) < 2 ^ 32 →
@@ -53,10 +52,10 @@ theorem run3_inv (run : ProbeRunner) (ops : List Op3) : ∀ (s : St) (fl : List 
       (runOps3 run s ops).w.entities.length ≤ s.w.entities.length + ops.length := by
   induction ops with
   | nil =>
-    intro s fl h _ _ _
+    intro s fl h _ _
     exact ⟨fl, h, by simp [runOps3], by simp [runOps3], by simp [runOps3]⟩
   | cons op ops ih =>
-    intro s fl h hnr hb1 hb2
+    intro s fl h hb1 hb2
     simp only [List.length_cons] at hb1 hb2 ⊢
     have e1 : (ops.length + 1) * (s.w.relationArchetypes.length + (ops.length + 1)) =
         ops.length * (s.w.relationArchetypes.length + 1 + ops.length) +
@@ -67,25 +66,23 @@ theorem run3_inv (run : ProbeRunner) (ops : List Op3) : ∀ (s : St) (fl : List 
       rw [this]
     rw [e1] at hb1 ⊢
     obtain ⟨⟨fl1, h1⟩, g⟩ := step3_inv run h (by omega) (by omega) op
-      (hnr op List.mem_cons_self)
     obtain ⟨g1, g2, g3⟩ := g
     have hm : ops.length * ((step3 run s op).w.relationArchetypes.length + ops.length) ≤
         ops.length * (s.w.relationArchetypes.length + 1 + ops.length) :=
       Nat.mul_le_mul_left _ (by omega)
-    obtain ⟨fl2, h2, b1, b2, b3⟩ := ih _ fl1 h1 (fun o ho => hnr o (List.mem_cons_of_mem _ ho))
-      (by omega) (by omega)
+    obtain ⟨fl2, h2, b1, b2, b3⟩ := ih _ fl1 h1 (by omega) (by omega)
     refine ⟨fl2, h2, ?_, ?_, ?_⟩
     · show (runOps3 run (step3 run s op) ops).w.tables.length ≤ _; omega
     · show (runOps3 run (step3 run s op) ops).w.relationArchetypes.length ≤ _; omega
     · show (runOps3 run (step3 run s op) ops).w.entities.length ≤ _; omega
 
-/-- **the invariant holds at every state reachable without `Reset`** (the bound of
+/-- **the invariant holds at every reachable state** (the bound of
     `RelRefine.reach_hinv`) -/
 theorem reach3_inv (run : ProbeRunner) (cap rel : Nat) (ops : List Op3)
-    (hlen : ops.length < 2 ^ 16) (hnr : ∀ op ∈ ops, op.isReset = false) :
+    (hlen : ops.length < 2 ^ 16) :
     ∃ fl, HInv2 (reach3 run cap rel ops) fl := by
   have hsq : ops.length * ops.length ≤ 65535 * 65535 := Nat.mul_le_mul (by omega) (by omega)
-  obtain ⟨fl, h, _⟩ := run3_inv run ops _ [] (hinv2_init cap rel) hnr
+  obtain ⟨fl, h, _⟩ := run3_inv run ops _ [] (hinv2_init cap rel)
     (by
       show 1 + ops.length * (0 + ops.length) + 0 + ops.length + 1 ≤ maxU32
       rw [Nat.zero_add]; simp only [maxU32]; omega)
@@ -95,11 +92,11 @@ theorem reach3_inv (run : ProbeRunner) (cap rel : Nat) (ops : List Op3)
 /-- the size hypotheses of the step lemmas hold in every reachable state (one more operation
     fits) -/
 theorem reach3_fits (run : ProbeRunner) (cap rel : Nat) (ops : List Op3)
-    (hlen : ops.length + 1 < 2 ^ 16) (hnr : ∀ op ∈ ops, op.isReset = false) :
+    (hlen : ops.length + 1 < 2 ^ 16) :
     (reach3 run cap rel ops).w.tables.length + (reach3 run cap rel ops).w.relationArchetypes.length +
       1 ≤ maxU32 ∧ 2 * (reach3 run cap rel ops).w.entities.length < 2 ^ 32 := by
   have hsq : ops.length * ops.length ≤ 65535 * 65535 := Nat.mul_le_mul (by omega) (by omega)
-  obtain ⟨fl, _, b1, b2, b3⟩ := run3_inv run ops _ [] (hinv2_init cap rel) hnr
+  obtain ⟨fl, _, b1, b2, b3⟩ := run3_inv run ops _ [] (hinv2_init cap rel)
     (by
       show 1 + ops.length * (0 + ops.length) + 0 + ops.length + 1 ≤ maxU32
       rw [Nat.zero_add]; simp only [maxU32]; omega)
@@ -124,13 +121,13 @@ theorem reach3_base2 (ops : List Op2) :
   simp only [reach3, reach2, runOps3, runOps2, List.foldl_map]
   rfl
 
-/-- **refines** — after every `Reset`-free history of the machine with `Exchange`, for every entry
+/-- **refines** — after every history of the machine with `Exchange` (and `Reset`), for every entry
     `(e, en)` of the specification: `e` is alive, its component set is the sorted list of the keys
     of `en.comps`, every component holds the recorded value, every relation component has the
     recorded target, and the recorded relations are exactly the relation components among the
     keys -/
 theorem refines3 (ops : List Op3) (hlen : ops.length < 2 ^ 16)
-    (hnr : ∀ op ∈ ops, op.isReset = false) (e : Ent) (en : Entry)
+    (e : Ent) (en : Entry)
     (hm : (e, en) ∈ (reach3 run cap rel ops).ss.ents) :
     (reach3 run cap rel ops).w.alive e = true ∧
     compsOf (reach3 run cap rel ops).w e.id =
@@ -140,7 +137,7 @@ theorem refines3 (ops : List Op3) (hlen : ops.length < 2 ^ 16)
     (keys en.comps).Nodup ∧ (en.rels.map (·.comp)).Nodup ∧
     (∀ c : Comp, c ∈ en.rels.map (·.comp) ↔
       c ∈ keys en.comps ∧ (reach3 run cap rel ops).w.isRelComp c = true) := by
-  obtain ⟨fl, H⟩ := reach3_inv run cap rel ops hlen hnr
+  obtain ⟨fl, H⟩ := reach3_inv run cap rel ops hlen
   obtain ⟨_, ha, _⟩ := H.base.live_facts hm
   have ok := H.base.ok e en hm
   exact ⟨ha, ok.comps, ok.vals, ok.tgts, ok.nodup, ok.relNodup,
@@ -148,11 +145,11 @@ theorem refines3 (ops : List Op3) (hlen : ops.length < 2 ^ 16)
 
 /-- a handle the client holds is alive iff the specification has an entry for it -/
 theorem alive_iff_specified3 (ops : List Op3) (hlen : ops.length < 2 ^ 16)
-    (hnr : ∀ op ∈ ops, op.isReset = false) (h : Ent)
+    (h : Ent)
     (hi : h ∈ (reach3 run cap rel ops).issued) :
     (reach3 run cap rel ops).w.alive h = true ↔
       (find (reach3 run cap rel ops).ss.ents h).isSome = true := by
-  obtain ⟨fl, H⟩ := reach3_inv run cap rel ops hlen hnr
+  obtain ⟨fl, H⟩ := reach3_inv run cap rel ops hlen
   constructor
   · intro ha
     obtain ⟨en, hf, _⟩ := H.base.find_of_alive hi ha
@@ -161,8 +158,8 @@ theorem alive_iff_specified3 (ops : List Op3) (hlen : ops.length < 2 ^ 16)
 
 /-- the joint invariant `TInv` of the C04 theorems holds at every reachable state -/
 theorem reach3_tinv (ops : List Op3) (hlen : ops.length < 2 ^ 16)
-    (hnr : ∀ op ∈ ops, op.isReset = false) : ∃ fl, TInv (reach3 run cap rel ops).w fl := by
-  obtain ⟨fl, H⟩ := reach3_inv run cap rel ops hlen hnr
+    : ∃ fl, TInv (reach3 run cap rel ops).w fl := by
+  obtain ⟨fl, H⟩ := reach3_inv run cap rel ops hlen
   exact ⟨fl, H.base.tinv⟩
 
 /-! ## what an `xchg` step does -/
@@ -173,15 +170,15 @@ theorem reach3_tinv (ops : List Op3) (hlen : ops.length < 2 ^ 16)
     the entity lacks, a component to add that it has, a component named twice, and a dead target
     named through a typed path. -/
 theorem xchg_rejected (ops : List Op3) (hlen : ops.length + 1 < 2 ^ 16)
-    (hnr : ∀ op ∈ ops, op.isReset = false) (p : Path) (e : Ent) (add : List Comp) (vals : Comps)
+    (p : Path) (e : Ent) (add : List Comp) (vals : Comps)
     (rem : List Comp) (rels : Rels)
     (hg : guardXchg (reach3 run cap rel ops) p e add rels = true)
     (hnp : ¬ preXchg (reach3 run cap rel ops).ss e add rem rels) :
     (∃ k, opExchange run p e add vals rem rels (reach3 run cap rel ops).w =
       .panic k (reach3 run cap rel ops).w) ∧
     reach3 run cap rel (ops ++ [.xchg p e add vals rem rels]) = reach3 run cap rel ops := by
-  obtain ⟨fl, H⟩ := reach3_inv run cap rel ops (by omega) hnr
-  obtain ⟨hfew, hent⟩ := reach3_fits run cap rel ops hlen hnr
+  obtain ⟨fl, H⟩ := reach3_inv run cap rel ops (by omega)
+  obtain ⟨hfew, hent⟩ := reach3_fits run cap rel ops hlen
   obtain ⟨_, _, hrej, _⟩ := step3_xchg run H (by omega) (by omega) p e add vals rem rels
   obtain ⟨k, hk⟩ := hrej hg hnp
   refine ⟨⟨k, hk⟩, ?_⟩
@@ -190,13 +187,13 @@ theorem xchg_rejected (ops : List Op3) (hlen : ops.length + 1 < 2 ^ 16)
 
 /-- **accepted** — an `xchg` step whose precondition holds succeeds, through any access path -/
 theorem xchg_accepted (ops : List Op3) (hlen : ops.length + 1 < 2 ^ 16)
-    (hnr : ∀ op ∈ ops, op.isReset = false) (p : Path) (e : Ent) (add : List Comp) (vals : Comps)
+    (p : Path) (e : Ent) (add : List Comp) (vals : Comps)
     (rem : List Comp) (rels : Rels)
     (hg : guardXchg (reach3 run cap rel ops) p e add rels = true)
     (hp : preXchg (reach3 run cap rel ops).ss e add rem rels) :
     ∃ w', opExchange run p e add vals rem rels (reach3 run cap rel ops).w = .ok () w' := by
-  obtain ⟨fl, H⟩ := reach3_inv run cap rel ops (by omega) hnr
-  obtain ⟨hfew, hent⟩ := reach3_fits run cap rel ops hlen hnr
+  obtain ⟨fl, H⟩ := reach3_inv run cap rel ops (by omega)
+  obtain ⟨hfew, hent⟩ := reach3_fits run cap rel ops hlen
   obtain ⟨_, _, _, hacc⟩ := step3_xchg run H (by omega) (by omega) p e add vals rem rels
   exact hacc hg hp
 
@@ -233,14 +230,14 @@ theorem xchg_others (ops : List Op3) (p : Path) (e : Ent) (add : List Comp) (val
       · rfl
   · rfl
 
-/-- **the effect of an accepted `Exchange`, over histories**: after a `Reset`-free history `ops`,
+/-- **the effect of an accepted `Exchange`, over histories**: after a history `ops`,
     an `xchg` step whose precondition holds on the entry `en` of `e`: afterwards `e` is alive, has
     exactly the components `(keys en.comps \ rem) ∪ add`; every component holds the value of
     `xchgEntry` (kept: the old value overwritten by the last write; added: the last write, zero if
     none); every relation component has the target of `xchgEntry` (kept: the old target; added: the
     target given) -/
 theorem xchg_effect (ops : List Op3) (hlen : ops.length + 1 < 2 ^ 16)
-    (hnr : ∀ op ∈ ops, op.isReset = false) (p : Path) (e : Ent) (add : List Comp) (vals : Comps)
+    (p : Path) (e : Ent) (add : List Comp) (vals : Comps)
     (rem : List Comp) (rels : Rels) {en : Entry}
     (hg : guardXchg (reach3 run cap rel ops) p e add rels = true)
     (hf : find (reach3 run cap rel ops).ss.ents e = some en)
@@ -255,14 +252,9 @@ theorem xchg_effect (ops : List Op3) (hlen : ops.length + 1 < 2 ^ 16)
   intro s' en'
   have hent := (xchg_entry run cap rel ops p e add vals rem rels hg hf hok).1
   have hm := find_some_mem hent
-  have hnr' : ∀ op ∈ ops ++ [Op3.xchg p e add vals rem rels], op.isReset = false := by
-    intro op hop
-    rcases List.mem_append.mp hop with h | h
-    · exact hnr op h
-    · rw [List.mem_singleton.mp h]; rfl
   have hlen' : (ops ++ [Op3.xchg p e add vals rem rels]).length < 2 ^ 16 := by
     rw [List.length_append, List.length_singleton]; exact hlen
-  obtain ⟨h1, h2, h3, h4, _⟩ := refines3 run cap rel _ hlen' hnr' e _ hm
+  obtain ⟨h1, h2, h3, h4, _⟩ := refines3 run cap rel _ hlen' e _ hm
   refine ⟨h1, ?_, h3, h4⟩
   rw [h2]
   have hk : keys en'.comps = ((keys en.comps).filter fun c => decide (c ∉ rem)) ++ add := by
@@ -274,11 +266,11 @@ theorem xchg_effect (ops : List Op3) (hlen : ops.length + 1 < 2 ^ 16)
 /-! ## C05 at every reachable state of the extended machine -/
 
 /-- **C05 with relations and `Exchange`** — the headline of `Ark.RelRefine2` at every state
-    reachable by a `Reset`-free history that may contain `Exchange`: for every registered filter
+    reachable by a history that may contain `Exchange` and `Reset`: for every registered filter
     object and any admissible per-call relations the cached table list has the members of the
     uncached walk, and the cached and the uncached iteration visit the same entities -/
 theorem reach3_cached_agrees (ops : List Op3)
-    (hlen : ops.length < 2 ^ 16) (hnr : ∀ op ∈ ops, op.isReset = false)
+    (hlen : ops.length < 2 ^ 16)
     {f : Nat} {fo : FilterObj} {id : Nat}
     (hfind : AL.find? (reach3 run cap rel ops).w.filters f = some fo) (hc : fo.cache = some id)
     {extra : List RelID} (hx : ExtraAdmissible (reach3 run cap rel ops).w fo extra) :
@@ -296,13 +288,13 @@ theorem reach3_cached_agrees (ops : List Op3)
         Observed (reach3 run cap rel ops).w { fo with cache := none } extra
           ((reach3 run cap rel ops).w.withLocks l1) qu visitsU ∧
         (visits.map (·.e)).Perm (visitsU.map (·.e)) := by
-  obtain ⟨fl, H⟩ := reach3_inv run cap rel ops hlen hnr
+  obtain ⟨fl, H⟩ := reach3_inv run cap rel ops hlen
   exact H.cached_agrees hfind hc hx
 
 theorem reach3_cacheInv (ops : List Op3)
-    (hlen : ops.length < 2 ^ 16) (hnr : ∀ op ∈ ops, op.isReset = false) :
+    (hlen : ops.length < 2 ^ 16) :
     CacheInv (reach3 run cap rel ops).w := by
-  obtain ⟨fl, H⟩ := reach3_inv run cap rel ops hlen hnr
+  obtain ⟨fl, H⟩ := reach3_inv run cap rel ops hlen
   exact H.cacheInv
 
 end RelRefine3
